@@ -6,7 +6,7 @@ From Coq Require Import Lia.
 Open Scope N_scope.
 
 Definition label_index (l : label) : nat :=
-  match l with LC i | LCW i | LT i => i | LTs j => j | LPat k => k end.
+  match l with LC i | LCW i | LT i => i | LTs j => j | LPat k => k | LSdp k => k end.
 Definition label_ge (n : nat) (l : label) : Prop := (n <= label_index l)%nat.
 
 Definition cspec_ge (n : nat) (sp : cspec) : Prop :=
@@ -30,9 +30,9 @@ Proof.
     inversion H2; subst. apply Forall_app. split; [assumption|]. repeat constructor. exact Hb.
 Qed.
 
-Lemma cspec_feed_ge n gop_num max sp cls b w wo :
+Lemma cspec_feed_ge n gop_num max sp cls b w wo p :
   label_ge n b -> label_ge n w -> label_ge n wo ->
-  cspec_ge n sp -> cspec_ge n (cspec_feed gop_num max sp cls b w wo).
+  cspec_ge n sp -> cspec_ge n (cspec_feed gop_num max sp cls b w wo p).
 Proof.
   intros Hb Hw Hwo (H1 & H2 & H3 & H4 & H5). unfold cspec_ge, cspec_feed. cbn [sp_meta_w sp_meta_wo sp_vsh sp_ash sp_gops].
   repeat split.
@@ -40,7 +40,8 @@ Proof.
   - destruct cls; try assumption. repeat constructor; assumption.
   - destruct cls; try assumption. repeat constructor; assumption.
   - destruct cls; try assumption. repeat constructor; assumption.
-  - destruct (Nat.ltb 0 gop_num); [now apply gops_feed_ge|assumption].
+  - destruct cls; try (destruct (Nat.ltb 0 gop_num); [now apply gops_feed_ge|assumption]);
+      destruct (hdr_changed _ _); try assumption; constructor.
 Qed.
 
 Lemma lcw_index m i : label_index (lcw m i) = i.
@@ -52,7 +53,7 @@ Lemma sstep_ge cf n sp e :
   (n <= ss_n sp)%nat -> cspec_ge n (ss_rtmp sp) -> cspec_ge n (ss_flv sp) ->
   (n <= ss_n (sstep cf sp e))%nat /\ cspec_ge n (ss_rtmp (sstep cf sp e)) /\ cspec_ge n (ss_flv (sstep cf sp e)).
 Proof.
-  intros Hn Hr Hf. destruct e as [m|k id|id| | |b|]; cbn [sstep]; try (split; [assumption|split; assumption]).
+  intros Hn Hr Hf. destruct e as [m|k id|id| | |b| | |did]; cbn [sstep]; try (split; [assumption|split; assumption]).
   - destruct (Nat.eqb _ 0); cbn [ss_n ss_rtmp ss_flv]; [split; [lia|split; assumption]|].
     split; [lia|split].
     + destruct (cf_rtmp_enable cf); [|assumption].
